@@ -381,7 +381,7 @@ func genC04(t *rapid.T) *Case {
 			op := mg.op(t)
 			return op
 		}
-	}), 1, 25).Draw(t, "ops")
+	}), minHistory(t, 25), 25).Draw(t, "ops")
 	// Scenario templates: multi-step setups that independent random ops rarely
 	// line up (shared registration under one - possibly unknown - policy followed
 	// by calls; subscription fan-out followed by hostile publications; a call
